@@ -19,7 +19,8 @@ Proof. exact errors_originate. Qed.
    of the failing element, and everything before it had succeeded *)
 Theorem C07_index_is_failing_position : forall ea a srcs i olds st er',
   each_assign ea i a srcs olds st = Errored er' ->
-  exists k s o st0 er, nth_error srcs k = Some s /\ nth_error olds k = Some o /\
+  exists k s o st0 er, nth_error srcs k = Some s /\
+                       (nth_error olds k = Some o \/ (nth_error olds k = None /\ o = VNil)) /\   (* second case: F-C02-1, the slot does not exist *)
                        ea a s o st0 = Errored er /\ er' = push_elem (DIndex (i + N.of_nat k)) er.
 Proof. exact each_assign_error. Qed.
 Theorem C07_key_is_source_key : forall ev k v kvs st er',
